@@ -1006,7 +1006,7 @@ class CascadeFilter(FilterList):
   @elementwise("freq", 1)
   def freq_response(self, freq):
     return reduce(operator.mul, (filt.freq_response(freq)
-                                 for filt in self.callables))
+                                 for filt in self.callables), 1)
 
   @property
   def poles(self):
@@ -1068,7 +1068,7 @@ class ParallelFilter(FilterList):
   @elementwise("freq", 1)
   def freq_response(self, freq):
     return reduce(operator.add, (filt.freq_response(freq)
-                                 for filt in self.callables))
+                                 for filt in self.callables), 0)
 
   @property
   def poles(self):
